@@ -47,6 +47,10 @@ func c18Progs() []c18Prog {
 		{"three-stages", "range 3 | each {|x| put $x } | count", []string{res("ok", "[(num 3)]", "")}, 0},
 		{"early-exit-middle", "range 40 | take 2 | each {|x| put $x }", []string{res("ok", "[(num 0) (num 1)]", "")}, 1},
 		{"bytes-through", "echo hi | each {|x| echo $x }", []string{res("ok", "[]", "hi\n")}, 0},
+		// redirections applied to the pipe ends of a stage
+		{"writer-dups-stderr-over-piped-stdout", "echo to-stderr >&2 | each {|x| put got-$x }; put after", []string{res("ok", "[after]", "")}, 0},
+		{"writer-closes-piped-stdout", "put a >&- | each {|x| put got-$x }; put after", []string{res("ok", "[after]", ""), res("exc:port does not support value output", "[after]", ""), res("pipeline[exc:port does not support value output]", "[after]", ""), res("exc:port does not support value output", "[]", ""), res("pipeline[exc:port does not support value output]", "[]", "")}, 0},
+		{"reader-closes-piped-stdin", "put a b | each {|x| put got-$x } <&-; put after", []string{res("ok", "[after]", "")}, 0},
 		{"writer-fails-after-output", "{ put a; fail x } | each {|x| put $x }", []string{res("exc:x", "[a]", ""), res("pipeline[exc:x]", "[a]", "")}, 0},
 	}
 }
@@ -83,7 +87,7 @@ func TestVerifC18(t *testing.T) {
 		return
 	}
 	vk.Run(t, "C18", "exploration", func(c *vk.Ctx) {
-		c.Rule("every schedule of the real Evaler running each of 14 pipeline programs (values, byte lines, both bands, more values than the 32-slot channel, early-exiting readers, failing stages), at synchronisation granularity (channel ops, select, mutex, waitgroup, atomics, pipe reads), with at most `bound` departures from the default goroutine (delay bounding; bound 2, 1 for the three long programs); class = distinct (program, observation log)")
+		c.Rule("every schedule of the real Evaler running each of 17 pipeline programs (values, byte lines, both bands, more values than the 32-slot channel, early-exiting readers, failing stages, fd redirections applied to the pipe ends of a stage), at synchronisation granularity (channel ops, select, mutex, waitgroup, atomics, pipe reads), with at most `bound` departures from the default goroutine (delay bounding; bound 2, 1 for the three long programs); class = distinct (program, observation log)")
 		c.Assume("pkg/eval and pkg/eval/vars are rewritten so that their synchronisation goes through the controlled scheduler; x/sync/semaphore is compiled from its real source the same way",
 			"memory-model effects below synchronisation granularity and schedules beyond the bound are not explored",
 			"pipe reads are gated by poll(2); pipe writes are assumed not to block (outputs are far below the pipe capacity)")
